@@ -146,7 +146,19 @@ impl Stats {
     pub fn distinct_nontrivial(&self) -> u64 {
         self.nontrivial.len() as u64 + self.nontrivial_counted
     }
-    fn merge(&mut self, o: Stats) {
+    /// Summary used by the libFuzzer bridge.
+    pub fn summary(&self) -> Value {
+        json!({
+            "evaluations": self.evaluations,
+            "distinct_nontrivial": self.distinct_nontrivial(),
+            "classes": self.classes,
+            "counters": self.counters,
+            "excluded_known": self.excluded_known,
+            "samples": self.samples,
+        })
+    }
+    /// Adds the statistics of `o`.
+    pub fn merge(&mut self, o: Stats) {
         self.evaluations += o.evaluations;
         self.nontrivial.extend(o.nontrivial);
         for (k, v) in o.classes {
@@ -461,6 +473,8 @@ impl Env {
         assumptions: &[&str],
         parts: Vec<PartReport>,
     ) -> i32 {
+        let mut parts = parts;
+        parts.extend(run_corpus(self));
         let wall = self.start.elapsed().as_secs_f64();
         let mut evaluations = 0;
         let mut distinct = 0;
@@ -997,4 +1011,148 @@ macro_rules! fuzz_entry {
 /// Serialises a case (helper of [`fuzz_entry`]).
 pub fn to_json<T: Serialize>(t: &T) -> Value {
     serde_json::to_value(t).unwrap_or(Value::Null)
+}
+
+static FUZZ_REGISTRY: std::sync::OnceLock<Vec<FuzzEntry>> = std::sync::OnceLock::new();
+
+/// Registers the engine's fuzzable parts so that [`Env::finish`] can replay the committed libFuzzer
+/// corpora (`fuzz/corpus/<Cxx>-<part>/`) natively.
+pub fn set_fuzz_registry(v: Vec<FuzzEntry>) {
+    let _ = FUZZ_REGISTRY.set(v);
+}
+
+/// Choice stream of a corpus file (little-endian u16s).
+pub fn corpus_choices(data: &[u8], max: usize) -> Vec<u16> {
+    data.chunks(2).take(max).map(|c| u16::from_le_bytes([c[0], *c.get(1).unwrap_or(&0)])).collect()
+}
+
+/// Replays the committed libFuzzer corpus of every registered part of this property (sequentially
+/// sharded over threads): the coverage-interesting inputs found by earlier campaigns are the
+/// seconds-long regression tier of those campaigns.
+fn run_corpus(env: &Env) -> Vec<PartReport> {
+    let Some(reg) = FUZZ_REGISTRY.get() else { return vec![] };
+    let mut out = vec![];
+    for e in reg.iter().filter(|e| e.property == env.property) {
+        let dir = verif_root().join("fuzz").join("corpus").join(format!("{}-{}", e.property, e.part));
+        let mut files: Vec<PathBuf> = match std::fs::read_dir(&dir) {
+            Ok(rd) => rd.filter_map(|x| x.ok()).map(|x| x.path()).filter(|p| p.is_file()).collect(),
+            Err(_) => continue,
+        };
+        if files.is_empty() {
+            continue;
+        }
+        files.sort();
+        let shards = env.shards.max(1);
+        let results: Vec<(Stats, Option<Failure>)> = std::thread::scope(|s| {
+            let handles: Vec<_> = (0..shards)
+                .map(|shard| {
+                    let files = &files;
+                    s.spawn(move || {
+                        install_thread();
+                        let mut stats = Stats::new(1);
+                        let mut failure = None;
+                        for f in files.iter().skip(shard).step_by(shards) {
+                            let Ok(data) = std::fs::read(f) else { continue };
+                            stats.evaluations += 1;
+                            if let Err((reason, case)) = (e.run)(corpus_choices(&data, e.max_choices), &mut stats) {
+                                if env.is_known(&reason) {
+                                    stats.excluded_known += 1;
+                                } else if failure.is_none() {
+                                    failure = Some(Failure { part: e.part.to_string(), reason: format!("(corpus file {}) {reason}", f.display()), case });
+                                }
+                            }
+                        }
+                        (stats, failure)
+                    })
+                })
+                .collect();
+            handles.into_iter().map(|h| h.join().unwrap()).collect()
+        });
+        let mut report = PartReport {
+            name: format!("{}@corpus", e.part),
+            rule: format!("replay of the committed libFuzzer corpus of part {} (choice streams that reached new coverage in earlier coverage-guided campaigns), same generator, oracle and non-triviality rule as the part", e.part),
+            stats: Stats::new(1),
+            failure: None,
+            exhaustive: false,
+            inconclusive: None,
+        };
+        for (st, f) in results {
+            report.stats.merge(st);
+            if report.failure.is_none() {
+                report.failure = f;
+            }
+        }
+        if let Some(f) = &report.failure {
+            if f.reason.contains("INFRA:") {
+                report.inconclusive = Some(f.reason.clone());
+                report.failure = None;
+            }
+        }
+        out.push(report);
+    }
+    out
+}
+
+/// Greedy minimisation of a failing choice stream (used by the libFuzzer bridge, whose own inputs are
+/// not shrunk): drop chunks, zero and halve values while the case keeps failing with a reason that is
+/// not a known finding. Bounded by `budget` executions.
+pub fn shrink_choices(env: &Env, e: &FuzzEntry, raw: Vec<u16>, budget: usize) -> (Vec<u16>, String, Value) {
+    let fails = |r: &[u16]| -> Option<(String, Value)> {
+        let mut st = Stats::new(0);
+        match (e.run)(r.to_vec(), &mut st) {
+            Err((reason, case)) if !env.is_known(&reason) && !reason.contains("INFRA:") => Some((reason, case)),
+            _ => None,
+        }
+    };
+    let mut best = raw;
+    while best.last() == Some(&0) {
+        best.pop();
+    }
+    let Some(mut verdict) = fails(&best) else {
+        let mut st = Stats::new(0);
+        let r = (e.run)(best.clone(), &mut st).err().unwrap_or_default();
+        return (best, r.0, r.1);
+    };
+    let mut used = 0;
+    let mut progress = true;
+    while progress && used < budget {
+        progress = false;
+        let mut chunk = best.len().max(1) / 2;
+        while chunk >= 1 && used < budget {
+            let mut i = 0;
+            while i + chunk <= best.len() && used < budget {
+                let mut cand = best.clone();
+                cand.drain(i..i + chunk);
+                used += 1;
+                if let Some(v) = fails(&cand) {
+                    best = cand;
+                    verdict = v;
+                    progress = true;
+                } else {
+                    i += chunk;
+                }
+            }
+            chunk /= 2;
+        }
+        for i in 0..best.len() {
+            if used >= budget {
+                break;
+            }
+            for repl in [0u16, best[i] / 2, best[i].saturating_sub(1)] {
+                if repl >= best[i] {
+                    continue;
+                }
+                let mut cand = best.clone();
+                cand[i] = repl;
+                used += 1;
+                if let Some(v) = fails(&cand) {
+                    best = cand;
+                    verdict = v;
+                    progress = true;
+                    break;
+                }
+            }
+        }
+    }
+    (best, verdict.0, verdict.1)
 }
